@@ -480,7 +480,17 @@ type (
 		Witness Expr
 	}
 	ECond struct{ C, A, B Expr }
+	// ESum: sumof k in lo..hi :: body  (mathematical integer sum; empty when hi <= lo)
+	ESum struct {
+		Var    string
+		Lo, Hi Expr
+		Body   Expr
+	}
 )
+
+func (e *ESum) String() string {
+	return fmt.Sprintf("sumof %s in %s..%s :: %s", e.Var, e.Lo, e.Hi, e.Body)
+}
 
 func (e *ELit) String() string   { return e.Val }
 func (e *EIdent) String() string { return e.Name }
@@ -664,6 +674,35 @@ func (p *parser) unary() (Expr, error) {
 			return nil, err
 		}
 		return &EUnary{t.v, x}, nil
+	}
+	if t.k == "id" && t.v == "sumof" {
+		p.next()
+		v := p.next()
+		if v.k != "id" {
+			return nil, fmt.Errorf("sumof variable expected")
+		}
+		if in := p.next(); in.k != "id" || in.v != "in" {
+			return nil, fmt.Errorf("sumof k in lo..hi :: body")
+		}
+		lo, err := p.expr(6)
+		if err != nil {
+			return nil, err
+		}
+		if err := p.expect(".."); err != nil {
+			return nil, err
+		}
+		hi, err := p.expr(6)
+		if err != nil {
+			return nil, err
+		}
+		if err := p.expect("::"); err != nil {
+			return nil, err
+		}
+		body, err := p.expr(0)
+		if err != nil {
+			return nil, err
+		}
+		return &ESum{Var: v.v, Lo: lo, Hi: hi, Body: body}, nil
 	}
 	if t.k == "id" && (t.v == "forall" || t.v == "exists") {
 		p.next()
